@@ -3,6 +3,7 @@ import numpy as np
 import pandas as pd
 from hypothesis import strategies as st
 
+from .. import ops as ops_
 from .. import data, gbops, model, ops
 from .. import strategies as S
 from ..core import Sub, Violation
@@ -73,8 +74,15 @@ def case_strategy(draw, variant):
     opsl = [o for o in gbops.REDUCTIONS8 if not (o == "sum" and any(data.val_kind(v) == "M" for v in vals))]
     if vals_as == "list_scalars" and vkind in "mM":
         vals_as = "np"
-    return {"n": n, "keys": keys, "vals": vals, "mask": draw(S.mask_spec(n, kinds=("none", "none", "bool", "slice"), steps=layout == "contiguous")),
-            "op": draw(st.sampled_from(opsl)), "sort": draw(st.booleans()), "observed_only": draw(st.sampled_from([True, True, False])),
+    mask = draw(S.mask_spec(n, kinds=("none", "none", "bool", "slice"), steps=layout == "contiguous"))
+    op = draw(st.sampled_from(opsl))
+    observed_only = draw(st.sampled_from([True, True, False]))
+    if (not int_nulls and all(data.val_kind(v) in "fi" for v in vals) and (mask is None or mask["kind"] == "bool")
+            and draw(st.sampled_from([True, False, False, False]))):
+        # median goes through another engine (sorted row groups + user function): same labelling rules
+        op, observed_only = "median", True
+    return {"n": n, "keys": keys, "vals": vals, "mask": mask,
+            "op": op, "sort": draw(st.booleans()), "observed_only": observed_only,
             "keys_as": keys_as, "vals_as": vals_as, "layout": layout, "threshold": draw(st.integers(1, n)), "key_chunks": draw(st.integers(1, 5)),
             "names": draw(st.sampled_from(["str", "str", "int", "falsy"]))}
 
@@ -167,7 +175,7 @@ def check(case, ctx):
             gb.result_index
     else:
         gb = GroupBy(karg, sort=case["sort"])
-    kw = {"observed_only": case["observed_only"]}
+    kw = {"observed_only": case["observed_only"]} if op != "median" else {}
     res = gb.size(mask=mask, **kw) if op == "size" else getattr(gb, op)(varg, mask=mask, **kw)
     labels, pos, groups = gbops.model_groups(case)
     _, _, groups_all = gbops.model_groups(case, mask=None)
@@ -237,12 +245,24 @@ def check(case, ctx):
             if vspec.get("nullable"):
                 # small integers with nulls: the numbers are exact in any numeric dtype the library answers in
                 vspec = dict(vspec, dtype="float64", vals=[None if x is None else float(x) for x in vspec["vals"]])
-            exp = gbops.expected_reduction(case, op, vspec, groups)
             pv = data.val_py(vspec)
+            if op == "median":
+                import statistics
+
+                exp = {}
+                for l, ps in groups.items():
+                    # NumPy's median of the group's selected values (C16): a null makes it null
+                    gv_ = [pv[p_] for p_ in ps]
+                    exp[l] = None if any(x is None for x in gv_) or not gv_ else statistics.median([float(x) for x in gv_])
+            else:
+                exp = gbops.expected_reduction(case, op, vspec, groups)
         for lab in got_labels:
             if lab in groups:
                 gv = [pv[p] for p in groups[lab]] if op != "size" else []
-                ok = (gmap[lab] == exp[lab]) if op == "size" else gbops.value_matches(op, vspec, exp[lab], gmap[lab], gv)
+                if op == "median":
+                    ok = ops_.same_values([None if gmap[lab] is None else float(gmap[lab])], [exp[lab]], 1e-9)
+                else:
+                    ok = (gmap[lab] == exp[lab]) if op == "size" else gbops.value_matches(op, vspec, exp[lab], gmap[lab], gv)
                 if not ok:
                     raise Violation(f"value:{op}", f"column {i} label {lab}: expected {exp[lab]!r} got {gmap[lab]!r}")
             elif not neutral(op, gmap[lab]):
